@@ -2,6 +2,7 @@ package props
 
 import (
 	"encoding/hex"
+	"encoding/pem"
 	"fmt"
 	"time"
 
@@ -63,6 +64,50 @@ func c11(x *mon.Ctx) {
 			}
 		})
 		x.Require("honest-reissued-root-in-quote", n*3, 0, n*3)
+	}
+	// a root certificate that names SEVERAL CRL distribution points (mirrors, an LDAP entry, an old and a new URL): the ones in front
+	// are unreachable, answer with something that is not a DER CRL (a PEM-armoured one, an HTML error page, nothing, a CRL of
+	// somebody else's CA) or cannot be fetched at all (ldap:); one further down serves the CRL. Revocation checking finds it.
+	{
+		n := x.Pick(6, 30)
+		x.Each(n, func(i int) {
+			r := x.Rand(fmt.Sprint("distribution-points", i))
+			w := richHonest(r)
+			w.Resign()
+			good := "https://crl-mirror.example/IntelSGXRootCA.der"
+			fronts := [][]string{{"https://a.example/root.crl"}, {"https://a.example/root.crl", "https://b.example/root.crl"}, {"ldap://directory.example/cn=root", "https://a.example/root.crl"}, {world.RootCRLURL + ".old"}}[i%4]
+			alt := world.Reissue(w.PKI.Root, nil, func(t *x509Cert) { t.CRLDistributionPoints = append(append([]string{}, fronts...), good) })
+			w.PKI.Root = alt
+			w.Roots = certs(alt)
+			w.Q.Chain = world.ChainPEM(i%2 == 0, w.PKI.Leaf, w.PKI.Inter, alt)
+			w.Resign()
+			w.Extra[good] = world.Resp{B: w.RootCRL}
+			delete(w.Extra, world.RootCRLURL)
+			other := world.NewPKI(world.Far, nil)
+			for k, u := range fronts {
+				switch (i/4 + k) % 6 {
+				case 0:
+					w.Extra[u] = world.Resp{B: pem.EncodeToMemory(&pem.Block{Type: "X509 CRL", Bytes: w.RootCRL})}
+				case 1:
+					w.Extra[u] = world.Resp{B: []byte("<html><body>503 Service Unavailable</body></html>")}
+				case 2:
+					w.Extra[u] = world.Resp{B: []byte{}}
+				case 3:
+					w.Extra[u] = world.Resp{Err: "no route to host"}
+				case 4:
+					w.Extra[u] = world.Resp{B: w.RootCRL[:len(w.RootCRL)/2]}
+				case 5:
+					w.Extra[u] = world.Resp{B: world.MkCRL(other.Root, world.Epoch.Add(-world.Day), world.Epoch.Add(30*world.Day), nil)[:40]}
+				}
+			}
+			for _, l := range levels {
+				c := w.Case(l, "honest-root-with-several-crl-distribution-points", fmt.Sprintf("w%d/%d-in-front", i, len(fronts)))
+				c.Form, c.Expect = mon.Forms[(i+l)%4], "accept"
+				delete(c.Resp, world.RootCRLURL)
+				check(x, i, c)
+			}
+		})
+		x.Require("honest-root-with-several-crl-distribution-points", n*3, 0, n*3)
 	}
 	// signatures whose r or s is a small number (one or two leading zero bytes; probability 2^-8 / 2^-16 per signature, so
 	// they are ground out): the quote signature, the QE report signature and the two collateral signatures
